@@ -5,6 +5,7 @@ import TzVerif.Model.DateTime
 import TzVerif.Spec.Calendar
 import TzVerif.Proofs.Calendar
 import TzVerif.Proofs.SrcEqCal
+import TzVerif.Generated.StableC02   -- per run: the current translation (SrcNow) equals the baseline (Src) these theorems are about
 
 namespace TzVerif.C02
 open TzVerif.Model TzVerif.Gen
